@@ -75,3 +75,16 @@ Definition caps_sound (p : pool) : Prop :=
 (* affordability half of pending_executable *)
 Definition pending_affordable (p : pool) : Prop :=
   forall a l, assoc a (pending p) = Some l -> Forall (fun t => tcost t <= cur_balance p a /\ tgas t <= maxgas p) (items l).
+
+(* ordering half of pending_executable together with the virtual nonce: per sender the pending nonces are the run
+   starting at the chain nonce and State().GetNonce is the chain nonce plus the length of that run *)
+Definition pn_ok (p : pool) : Prop :=
+  forall a, match assoc a (pending p) with
+            | Some l => run_from (cur_nonce p a) (items l) /\ pn_get p a = cur_nonce p a + tl_len l
+            | None => pn_get p a = cur_nonce p a
+            end.
+Definition pn_okb (p : pool) (senders : list Z) : bool :=
+  forallb (fun a => match assoc a (pending p) with
+                    | Some l => run_fromb (cur_nonce p a) (items l) && (pn_get p a =? cur_nonce p a + tl_len l)
+                    | None => pn_get p a =? cur_nonce p a
+                    end) senders.
